@@ -420,6 +420,19 @@ func c03Check(c *harness.Ctx) {
 			}
 		}
 	}
+	// two sessions receiving at once, headers split by the segmentation
+	for i, cut := range twoPeersRxCuts {
+		if !c.Mine(i) {
+			continue
+		}
+		b := 2
+		if th {
+			b = 3
+		}
+		if !exploreScn(c, "C03", twoPeersRxScn("C03", cut, b)) {
+			return
+		}
+	}
 	// schedule exploration on short streams (reader vs FSM vs handler timing)
 	bound := 1
 	if th {
@@ -465,7 +478,7 @@ func c03Scn(cs c03Case, bound int) *Scn {
 func init() {
 	harness.Register(&harness.Check{
 		Property: "C03", Level: "exploration", NeedsConc: true, QuickS: 200, ThoroughS: 1200,
-		Rule:   "all message sequences of length <=3 (quick) / <=4 (thorough) over {KEEPALIVE, UPDATE with body 0,1,4,23,4077 bytes} x segmentations of the byte stream: fixed write sizes {1,2,3,5,7,18,19,20,4096}, every partition with <=2 cut points taken from {first 24/40 bytes, every message boundary +-{0,1,2,18,19,20}, last byte}, with and without read coalescing, both directions; handler returning a NOTIFICATION at the j-th UPDATE; each case is one run of the real FSM over the virtual wire; in addition all schedules within the delay bound (1 quick / 2 thorough) of reader, FSM and handler for the streams of <=2 small messages; plus the stream followed directly by FIN, bulk runs of 12-300 messages (body lengths cycling through 0..4077, KEEPALIVEs interleaved), and a handler that takes virtual time while further messages arrive; all cases non-trivial and distinct",
+		Rule:   "all message sequences of length <=3 (quick) / <=4 (thorough) over {KEEPALIVE, UPDATE with body 0,1,4,23,4077 bytes} x segmentations of the byte stream: fixed write sizes {1,2,3,5,7,18,19,20,4096}, every partition with <=2 cut points taken from {first 24/40 bytes, every message boundary +-{0,1,2,18,19,20}, last byte}, with and without read coalescing, both directions; handler returning a NOTIFICATION at the j-th UPDATE; each case is one run of the real FSM over the virtual wire; in addition all schedules within the delay bound (1 quick / 2 thorough) of reader, FSM and handler for the streams of <=2 small messages; plus the stream followed directly by FIN, bulk runs of 12-300 messages (body lengths cycling through 0..4077, KEEPALIVEs interleaved), a handler that takes virtual time while further messages arrive, and two peers receiving split-header streams at the same instant under all schedules within delay bound 2 / 3; all cases non-trivial and distinct",
 		Assume: []string{"virtual network (A3): a Read returns the bytes of one write (or of all pending writes with coalescing)", "handlers return in zero time"},
 		Run:    c03Check,
 		Replay: func(c *harness.Ctx, raw json.RawMessage) {
@@ -482,6 +495,10 @@ func init() {
 				return
 			}
 			scnReplay("C03", func(name string) *Scn {
+				var cut int
+				if n, _ := fmt.Sscanf(name, "two-peers-rx/cut%d", &cut); n == 1 {
+					return twoPeersRxScn("C03", cut, 3)
+				}
 				b, err := hex.DecodeString(name[len("schedule/"):])
 				if err != nil {
 					return nil
